@@ -1,8 +1,9 @@
 (* C09 / C08 bridge: the word iteration the C09 model uses ("the first n set positions, ascending") is what both
    traversals of Bit64.IterAs* compute - the dense table scan and the sparse ctz loop of Bit64.v (C08's mirrored
    loops), for every threshold sparseMagic. *)
-From Coq Require Import ZArith List Bool Lia.
+From Coq Require Import ZArith NArith List Bool Lia.
 Require Bit64.
+Require C08_Model C08_Spec C08_Iter.
 Require Import C09_Model C09_Lists C09_Bits.
 Import ListNotations.
 Open Scope Z_scope.
@@ -30,3 +31,88 @@ Theorem word_iter_count magic w n :
 Proof.
   rewrite (word_iter_forward magic). rewrite Bit64.iter_fwd_spec. cbn [fst snd]. unfold zlen. now rewrite map_length.
 Qed.
+
+(* ------------------------------------------------------------------ both directions, through C08's iterator theorems *)
+(* C08 (C08_Model.v) models Bit64.IterAsT / RIterAsT and the Bit1024 chain loop by loop - table scan and ctz / clz loop,
+   every element type, the slice with cursor / left - and proves them equal to spec_iter (C08_Iter.v: iter64_spec,
+   iter1024_spec).  The list spec_iter writes is exactly what the C09 model's witer / iter1024 return, forward AND
+   reverse, for every threshold: the C09 model's view of the iterators is C08's theorem, not an assumption. *)
+Lemma ztake_take {A} (l : list A) : forall n, C08_Spec.ztake n l = take n l.
+Proof.
+  induction l as [|x l IH]; intros n; cbn [C08_Spec.ztake]; [now rewrite take_nil|].
+  destruct (n <=? 0) eqn:E.
+  - apply Z.leb_le in E. now rewrite take_nonpos.
+  - apply Z.leb_gt in E. rewrite IH. rewrite !take_firstn.
+    replace (Z.to_nat n) with (S (Z.to_nat (n - 1))) by lia. reflexivity.
+Qed.
+
+Lemma zseq64 : C08_Spec.zseq 0 64 = z64. Proof. vm_compute. reflexivity. Qed.
+Lemma zseq1024 : C08_Spec.zseq 0 1024 = z1024. Proof. vm_compute. reflexivity. Qed.
+
+Definition zwords (ws : list N) : bitmap := map Z.of_N ws.
+
+Lemma members64_wbits w : C08_Spec.members64 w = wbits (Z.of_N w).
+Proof.
+  unfold C08_Spec.members64. rewrite zseq64, wbits_unfold. apply filter_ext_in'. intros j Hj. apply in_z64 in Hj.
+  unfold C08_Spec.mem64. replace ((0 <=? j) && (j <? 64)) with true
+    by (symmetry; apply andb_true_intro; split; [apply Z.leb_le|apply Z.ltb_lt]; lia).
+  cbn [andb]. symmetry. apply Z.testbit_of_N'. lia.
+Qed.
+
+Lemma nth_zwords k ws : nth k (map Z.of_N ws) 0 = Z.of_N (nth k ws 0%N).
+Proof. exact (map_nth Z.of_N ws 0%N k). Qed.
+
+Lemma members1024_members ws : C08_Spec.members1024 ws = members (zwords ws).
+Proof.
+  unfold C08_Spec.members1024, members. rewrite zseq1024. apply filter_ext_in'. intros j Hj. apply in_z1024 in Hj.
+  unfold C08_Spec.mem1024, member, zwords.
+  rewrite Z.shiftr_div_pow2 by lia. change (2 ^ 6) with 64.
+  change 63 with (Z.ones 6). rewrite Z.land_ones by lia. change (2 ^ 6) with 64.
+  rewrite nth_zwords. f_equal. symmetry. apply Z.testbit_of_N'. apply Z.mod_pos_bound. lia.
+Qed.
+
+(* one word, both directions, every element type and threshold: the values C08's loops write are the C09 model's witer *)
+Theorem word_iter_c08 ty add rev magic w s pos n : C08_Spec.wfw w = true ->
+  C08_Model.iter64 ty add rev magic w s pos n =
+  let vals := witer rev (C08_Model.norm ty) (Z.of_N w) add n in
+  match vals with
+  | [] => C08_Model.Ok s 0
+  | _ => if (0 <=? pos) && (pos + zlen vals <=? zlen s) then C08_Model.Ok (C08_Spec.splice s pos vals) (zlen vals) else C08_Model.Panic
+  end.
+Proof.
+  intros Hw. rewrite (C08_Iter.iter64_spec ty add rev magic w s pos n Hw). unfold C08_Spec.spec_iter.
+  rewrite ztake_take, members64_wbits. unfold witer. destruct rev; reflexivity.
+Qed.
+
+(* the chain over the 16 words likewise: the C09 model's iter1024 is what C08's Bit1024 iterator writes *)
+Theorem iter1024_c08 ty rev magic ws s pos add n : C08_Spec.wfws ws = true ->
+  C08_Model.iter1024 ty rev magic ws s pos add n =
+  let vals := iter1024 rev (C08_Model.norm ty) (zwords ws) add n in
+  match vals with
+  | [] => C08_Model.Ok s 0
+  | _ => if (0 <=? pos) && (pos + zlen vals <=? zlen s) then C08_Model.Ok (C08_Spec.splice s pos vals) (zlen vals) else C08_Model.Panic
+  end.
+Proof.
+  intros Hw. rewrite (C08_Iter.iter1024_spec ty rev magic ws s pos add n Hw). unfold C08_Spec.spec_iter.
+  assert (Hl : length (zwords ws) = 16%nat).
+  { unfold zwords. rewrite map_length. unfold C08_Spec.wfws in Hw. apply andb_prop in Hw. destruct Hw as [Hw _]. now apply Nat.eqb_eq. }
+  rewrite ztake_take, members1024_members.
+  destruct rev; [rewrite (iter1024_rev _ _ _ _ Hl)|rewrite (iter1024_fwd _ _ _ _ Hl)]; reflexivity.
+Qed.
+
+Theorem iterators_c08 :
+  (forall ty add rev magic w s pos n, C08_Spec.wfw w = true ->
+     C08_Model.iter64 ty add rev magic w s pos n =
+     let vals := witer rev (C08_Model.norm ty) (Z.of_N w) add n in
+     match vals with
+     | [] => C08_Model.Ok s 0
+     | _ => if (0 <=? pos) && (pos + zlen vals <=? zlen s) then C08_Model.Ok (C08_Spec.splice s pos vals) (zlen vals) else C08_Model.Panic
+     end) /\
+  (forall ty rev magic ws s pos add n, C08_Spec.wfws ws = true ->
+     C08_Model.iter1024 ty rev magic ws s pos add n =
+     let vals := iter1024 rev (C08_Model.norm ty) (zwords ws) add n in
+     match vals with
+     | [] => C08_Model.Ok s 0
+     | _ => if (0 <=? pos) && (pos + zlen vals <=? zlen s) then C08_Model.Ok (C08_Spec.splice s pos vals) (zlen vals) else C08_Model.Panic
+     end).
+Proof. split; [exact word_iter_c08|exact iter1024_c08]. Qed.
